@@ -14,7 +14,8 @@ import (
 func init() { register(&Check{ID: "C14", Run: runC14}) }
 
 // constants named like the poryswitch case labels and switch values used below (a case label is not a constant position)
-const c14Consts = "const X = 11\nconst Y = 12\nconst Z = X\n"
+// (the file also holds, before the list under test, movement and mart statements NAMED like steps and items of that list: a name of a statement is not a macro)
+const c14Consts = "const X = 11\nconst Y = 12\nconst Z = X\nmovement a {\n\tza1\n\tza2 * 2\n}\nmovement q {\n\tzq1\n}\nmart I1 {\n\tZI1\n}\n"
 
 type mvElem struct {
 	src   string   // source spelling (with V=X selected for poryswitch elements)
@@ -603,6 +604,10 @@ func c14Marts(r *harness.Run, tier string, sw map[string]string) {
 					continue
 				}
 				got := nonBlank(strings.Split(res.Out, "\n"))
+				// (the statements of the file's prefix come first in the output; the mart under test is the rest)
+				if pre := nonBlank(strings.Split(comp.Compile(c14Consts, comp.Opts{Optimize: true, Switches: sw}).Out, "\n")); len(got) >= len(pre) && strings.Join(got[:len(pre)], "\n") == strings.Join(pre, "\n") {
+					got = got[len(pre):]
+				}
 				if strings.Join(got, "\n") != strings.Join(want, "\n") {
 					s2 := src
 					r.Report(harness.Violation{Sig: "C14:mart-differs", Summary: fmt.Sprintf("mart emitted %q, want %q\n  source: %q", res.Out, strings.Join(want, "\n"), src), Replay: map[string]interface{}{"source": src, "switches": sw, "want": want, "output": res.Out},
